@@ -107,8 +107,10 @@ class UnorderedConverter(XMLSchemaConverter):
                         content_lu[ns_name] = [value]
                     else:
                         content_lu[ns_name] = value
-                elif self.attr_prefix == '' and ns_name in xsd_element.attributes:
-                    attributes[ns_name] = value
+                elif self.attr_prefix == '' and \
+                        (attr_name := self.unmap_qname(name, xsd_element.attributes)) \
+                        in xsd_element.attributes:
+                    attributes[attr_name] = value
                 else:
                     content_lu[ns_name] = value
 
